@@ -88,6 +88,27 @@ HAND_BAD = [
 ]
 
 
+# second fixed schema (C03 only): two record attributes that share an OPTIONAL attribute of different entity types - such
+# records are not disjoint (both may omit it), so `==` between them must be rejected in strict mode, never typed False
+HAND2_SCHEMA = {"": {
+    "entityTypes": {
+        "Team": {},
+        "User": {"shape": {"type": "Record", "attributes": {
+            "ra": {"type": "Record", "attributes": {"d": {"type": "Entity", "name": "User", "required": False}}},
+            "rb": {"type": "Record", "attributes": {"d": {"type": "Entity", "name": "Team", "required": False}}},
+            "rc": {"type": "Record", "attributes": {"d": {"type": "Entity", "name": "Team", "required": False},
+                                                      "e": {"type": "Long", "required": False}}}}}}},
+    "actions": {"view": {"appliesTo": {"principalTypes": ["User"], "resourceTypes": ["Team"],
+                                       "context": {"type": "Record", "attributes": {}}}}}}}
+HAND2_BAD = [
+    ('permit(principal, action, resource) when { principal.ra == principal.rb };', "eq_records_optional_disjoint"),
+    ('permit(principal, action, resource) unless { principal.ra != principal.rb };', "eq_records_optional_disjoint"),
+    ('permit(principal, action, resource) when { principal.rb == principal.ra || principal.ra has d };', "eq_records_optional_disjoint"),
+    ('permit(principal, action, resource) when { principal.ra == principal.rc };', "eq_records_optional_disjoint"),
+    ('permit(principal, action, resource) when { [principal.ra].contains(principal.rb) };', "eq_records_optional_disjoint"),
+]
+
+
 class Case:
     """one policy with its data: text, intent, schema object, slots, (request, entities) pairs"""
     __slots__ = ("sid", "sg", "text", "fault", "expect", "guarded", "slots", "envs", "features", "ast")
@@ -111,6 +132,11 @@ def hand_cases(rng):
     for text, f in HAND_BAD:
         envs = [tgen.gen_env(rng, sg.rs, rng.choice(view)) for _ in range(N_ENVS)]
         out.append(Case(0, sg, text, f, "reject", False, {}, envs, ("hand",)))
+    sg2 = S.FixedSchema(HAND2_SCHEMA)
+    view2 = tgen.request_envs(sg2.rs)
+    for text, f in HAND2_BAD:
+        envs = [tgen.gen_env(rng, sg2.rs, rng.choice(view2)) for _ in range(2 * N_ENVS)]
+        out.append(Case(0, sg2, text, f, "reject", False, {}, envs, ("hand",)))
     return out
 
 
